@@ -38,7 +38,7 @@ def msgOf (j : Json) : Msg :=
 
 def iterOf (j : Json) : Iter :=
   { incoming := (jarr j "incoming").map msgOf, marks := (jarr j "marks").map asNat,
-    envs := (jarr j "envs").map asNat, unsched := (jarr j "unsched").map asNat }
+    envs := (jarr j "envs").map asNat, unsched := (jarr j "unsched").map (fun m => (asArr m).map asNat) }
 
 def jev : Ev → Json
   | .adv u s => jl [jn u, Json.str s]
@@ -47,7 +47,8 @@ def jstate (s : SchedSt) (res : Bool) : Json :=
   Json.mkObj [("nodes", jl (s.nodes.map jnode)), ("offset", jn s.offset), ("active", ji s.activeCnt),
               ("waitpool", jl ((prios s.waitpool).map (fun p => jl [ji p, jl ((poolOf s.waitpool p).map (fun r => jn r.uid))]))),
               ("colo", jl (s.coloHist.map (fun e => jl [jn e.1, jl (e.2.map jn)]))),
-              ("tagged", jl (s.tagged.map jn)), ("cancel", jl (s.cancel.map jn)), ("resources", Json.bool res)]
+              ("tagged", jl (s.tagged.map jn)), ("cancel", jl (s.cancel.map jn)), ("resources", Json.bool res),
+              ("queued", jn (s.unschedQ.map List.length).sum)]
 
 def runIters (c : Cfg) : SchedSt → Bool → List Iter → List Json → List Json
   | _, _,   [],        acc => acc
